@@ -2,6 +2,8 @@ import ExponaxModel.Properties.C02
 import ExponaxModel.Proofs.LinearTestOrderConst
 import ExponaxModel.Proofs.LinearTestOrderSharp
 import ExponaxModel.Proofs.LinearTestOrderNonlinearVec
+import ExponaxModel.Proofs.LinearTestOrderNonlinear2Vec
+import ExponaxModel.Proofs.LinearTestOrderStored
 /-
 C02 (continued) — ORDER of the schemes ("… and the error decays like dt^p").  Separate file because the order
 library builds on `Properties/C02.lean` (the regenerated steps ARE the Cox–Matthews schemes; no import cycle);
@@ -12,12 +14,13 @@ dt = T/n differ from the exact solution at time T by at most C·dt^p, C independ
 ‖L‖).  PROVED HERE, hence named `_partial`:
   * p = 1, 2, 3, 4 on the linear test family N(u) = μu, every λ, μ ∈ ℂ (λ = 0 and tiny λ·dt included — the
     coefficients are written with the entire φ functions), explicit constants, and the order is EXACTLY p;
-  * p = 1 for every globally Lipschitz nonlinear N : ℂⁿ → ℂⁿ with diagonal L, with a constant that depends on the
-    spectrum only through ω ≥ max(0, sup Re λ_k) — i.e. uniformly in the stiffness.
-MISSING: p = 2, 3, 4 for genuinely nonlinear N (Hochbruck–Ostermann stiff order conditions), and the transfer from the
-exact coefficients dt·φ(λdt) to the stored contour values (within 5e-8·|dt| of them by `C02_coefficients_default_accuracy`,
-which adds a consistency floor of that size instead of a pure dt^p statement).  Those parts stay measured by the C02
-oracle against an independent reference solution.
+  * p = 1 and p = 2 for every globally Lipschitz nonlinear N : ℂⁿ → ℂⁿ with diagonal L (p = 2: t ↦ N(u(t)) with a
+    Lipschitz derivative along the exact solution), with constants that depend on the spectrum only through
+    ω ≥ max(0, sup Re λ_k) — i.e. uniformly in the stiffness;
+  * on the linear test family the same holds for PERTURBED coefficients up to a consistency floor proportional to the
+    perturbation, and hence for the STORED contour coefficients (defaults M = 16, r = 1, real λ ≤ 0, δ = 5e-8).
+MISSING: p = 3, 4 for genuinely nonlinear N (Hochbruck–Ostermann stiff order conditions).  That part stays measured by
+the C02 oracle against an independent reference solution.
 -/
 set_option linter.unusedVariables false
 namespace Exponax
@@ -126,6 +129,44 @@ theorem C02_global_order_partial_etdrk1_nonlinear {ι : Type} [Fintype ι] (l : 
     ‖u (n * dt) - (E1step (fun k => Complex.exp (l k * dt)) (fun k => dt * phi1e (l k * dt)) N)^[n] (u 0)‖ ≤
       K * M * T / 2 * Real.exp ((2 * ω + K) * T) * dt :=
   expEulerVec_global_error l N K hN u T M ω hω hl hu hM n dt hdt hn
+
+/-! ### ETDRK2 with a genuinely NONLINEAR Lipschitz term: second-order convergence, stiffness-uniform -/
+
+/-- hypothesis on f = N∘u along the exact solution: a first-order Taylor expansion with remainder G s²/2 (implied by
+    "f has a G-Lipschitz derivative", `LinearOrder.taylor_of_lipschitz_deriv`) -/
+theorem C02_global_order_partial_etdrk2_nonlinear {ι : Type} [Fintype ι] (l : ι → ℂ) (N : (ι → ℂ) → ι → ℂ)
+    (K : NNReal) (hN : LipschitzWith K N) (u : ℝ → ι → ℂ) (T M ω G : ℝ) (hω : 0 ≤ ω) (hl : ∀ k, (l k).re ≤ ω)
+    (hG : 0 ≤ G) (hu : ∀ t ∈ Set.Icc 0 T, HasDerivAt u (l * u t + N (u t)) t)
+    (hM : ∀ t ∈ Set.Icc 0 T, ‖l * u t + N (u t)‖ ≤ M) (f' : ℝ → ι → ℂ)
+    (hf : ∀ t s : ℝ, 0 ≤ t → 0 ≤ s → t + s ≤ T → ‖N (u (t + s)) - N (u t) - (s : ℂ) • f' t‖ ≤ G * s ^ 2 / 2)
+    (n : ℕ) (dt : ℝ) (hdt : 0 ≤ dt) (hn : n * dt ≤ T) :
+    ‖u (n * dt) - (E2step (fun k => Complex.exp (l k * dt)) (fun k => dt * phi1e (l k * dt))
+        (fun k => dt * phi2e (l k * dt)) N)^[n] (u 0)‖ ≤
+      (T * (Real.exp (ω * T) * ((K : ℝ) ^ 2 * M * Real.exp (ω * T) / 4 + 5 * G / 12)) *
+        Real.exp ((ω + K * (3 + Real.exp (ω * T)) / 2) * T)) * dt ^ 2 := by
+  have h := etd2Vec_global_error l N K hN u T M ω G hω hl hG hu hM f' hf n dt hdt hn
+  simpa [etd2Vec, etd2C] using h
+
+/-! ### the STORED contour coefficients (regenerated `E?_coef_i dt λ 16 1`, `exp_term`, `E?_half_exp_term`): global
+error ≤ C'·dt^p + C''·5e-8 on the linear test family, real λ ≤ 0 -/
+
+theorem C02_global_order_partial_stored (lam : ℝ) (m : ℂ) (T : ℝ) (hlam : lam ≤ 0) (n : ℕ) (dt : ℝ) (hdt : 0 ≤ dt)
+    (hn : n * dt ≤ T) (u : ℂ) :
+    ‖(E1step (exp_term (dt : ℂ) (lam : ℂ)) (E1_coef_1 (dt : ℂ) (lam : ℂ) 16 1) (fun v : ℂ => m * v))^[n] u - Complex.exp ((lam + m) * (n * dt)) * u‖ ≤
+        Cfloor (Cloc1 lam m T) (pertD1 m δstored) (lam + m) 1 T * (Cloc1 lam m T * dt ^ 1 + pertD1 m δstored) * ‖u‖ ∧
+    ‖(E2step (exp_term (dt : ℂ) (lam : ℂ)) (E2_coef_1 (dt : ℂ) (lam : ℂ) 16 1) (E2_coef_2 (dt : ℂ) (lam : ℂ) 16 1) (fun v : ℂ => m * v))^[n] u -
+          Complex.exp ((lam + m) * (n * dt)) * u‖ ≤
+        Cfloor (Cloc2 lam m T) (pertD2 lam m T δstored) (lam + m) 2 T * (Cloc2 lam m T * dt ^ 2 + pertD2 lam m T δstored) * ‖u‖ ∧
+    ‖(E4step (exp_term (dt : ℂ) (lam : ℂ)) (E4_half_exp_term (dt : ℂ) (lam : ℂ) 16 1) (E4_coef_1 (dt : ℂ) (lam : ℂ) 16 1) (E4_coef_2 (dt : ℂ) (lam : ℂ) 16 1)
+          (E4_coef_3 (dt : ℂ) (lam : ℂ) 16 1) (E4_coef_4 (dt : ℂ) (lam : ℂ) 16 1) (E4_coef_5 (dt : ℂ) (lam : ℂ) 16 1) (E4_coef_6 (dt : ℂ) (lam : ℂ) 16 1)
+          (fun v : ℂ => m * v))^[n] u - Complex.exp ((lam + m) * (n * dt)) * u‖ ≤
+        Cfloor (Cloc4 lam m T) (pertD4 lam m T δstored) (lam + m) 4 T * (Cloc4 lam m T * dt ^ 4 + pertD4 lam m T δstored) * ‖u‖ :=
+  ⟨stored_E1_global lam m T hlam n dt hdt hn u, stored_E2_global lam m T hlam n dt hdt hn u,
+   stored_E4_global lam m T hlam n dt hdt hn u⟩
+
+/-- the floor is proportional to the coefficient error: for ETDRK1 it is 5e-8·‖μ‖ -/
+theorem C02_stored_floor (m : ℂ) : δstored = 5e-8 ∧ pertD1 m δstored = 5e-8 * ‖m‖ :=
+  ⟨rfl, pertD1_stored m⟩
 
 /-! ### non-vacuity -/
 example : (0 : ℝ) ≤ 1 ∧ ((4 : ℕ) : ℝ) * (1 / 4) ≤ 1 := by norm_num
